@@ -48,13 +48,13 @@ CHECKS = {
  "C15": dict(text="spec/Acs.tla transcribes the DHW renewable-share indicator branch by branch; TLC enumerates the supply mixes x other services x non-EPB use x auxiliaries x demand classes and checks range, closed forms of the canonical mixes, the invariances and the error classes on the specification (MC_C15); the mixes are replayed on the real library and TLC recomputes the fraction from the logged inputs (value or error class), checks the misc keys and the invariance over histories (k_exp, scaling, load matching).",
    design="5/C15", technique="TLA+ transcription of the indicator + TLC enumeration of supply mixes + trace validation (recomputation and histories)"),
  "C16": dict(category="fault_enumeration",
-   text="Model-driven fault enumeration: spec/Faults.tla defines the token-level corruption actions and TLC enumerates every fault (quick) / every fault pair (thorough) from components and factor files over an alphabet of atoms, plus token soups; each text is run through every public library entry point (catch_unwind) and through the real program, with valid texts of every kind and option atoms; the oracle is the terminal-state set of the specification (Trace_C16): Ok / typed error, deliberate exit code with stderr - Panic, signal, timeout are not states. This is the right level because the property is the absence of a bad terminal state over a generated input space, not a functional relation. The program itself is a sequential state machine in spec/Program.tla (one action per stage of main(), each ending with a deliberate code or going on); TLC checks TerminalOk and Progress on it from every configuration of inputs (missing, a directory, empty, metadata only, remarks only, not a components file), factor sources, writable / unwritable outputs and flags, and every configuration is realised and run by the real binary (Trace_Prog16: terminal state VERDICT, exit code / files written / report against Program!Outcome as DRIFT).",
+   text="Model-driven fault enumeration: spec/Faults.tla defines the token-level corruption actions and TLC enumerates every fault (quick) / every fault pair (thorough) from components and factor files over an alphabet of atoms, plus token soups; each text is run through every public library entry point (catch_unwind) and through the real program, with valid texts of every kind and option atoms; the oracle is the terminal-state set of the specification (Trace_C16): Ok / typed error, deliberate exit code with stderr - Panic, signal, timeout are not states. This is the right level because the property is the absence of a bad terminal state over a generated input space, not a functional relation. The program itself is a sequential state machine in spec/Program.tla (one action per stage of main(), each ending with a deliberate code or going on); TLC checks TerminalOk and Progress on it from every configuration of inputs (missing, a directory, empty, metadata only, remarks only, not a components file), factor sources, writable / unwritable outputs and flags, and every configuration is realised and run by the real binary (Trace_Prog16: terminal state VERDICT, exit code / files written / report against Program!Outcome as DRIFT). The spellings of a (ren, nren, co2) triple are a token-level grammar of their own (spec/Triple.tla, ParseTriple transcribed from RenNrenCo2::from_str): every text TLC builds is read by from_str and get_meta_rennren - a panic is a verdict, another outcome than the specification's is DRIFT.",
    design="5/C16", technique="TLA+ fault actions + TLC enumeration of fault sequences + terminal-state trace oracle"),
- "C17": dict(text="spec/Output.tla models the three renderings as token streams: a pushdown acceptor for the XML subset (plus element counts and numeric leaves), a table from every entry of the plain report to the path of the value it prints, and the flattened JSON. TLC enumerates the free-text strings (all sequences of at most 2 / 3 atoms incl. markup characters, quotes, backslash, non-ASCII) and checks the escaping at atom level; the real renderings of lattice buildings, random buildings, shipped files and every enumerated string - and the documents the real program writes - are lexed by the harness and judged by TLC.",
+ "C17": dict(text="spec/Output.tla models the three renderings as token streams: a pushdown acceptor for the XML subset (plus element counts and numeric leaves), a table from every entry of the plain report to the path of the value it prints, and the flattened JSON. TLC enumerates the free-text strings (all sequences of at most 2 / 3 atoms incl. markup characters, quotes, backslash, non-ASCII) and checks the escaping at atom level; the real renderings of lattice buildings, random buildings, shipped files and every enumerated string - and the documents the real program writes, on fresh paths and over paths that already hold longer documents - are lexed by the harness and judged by TLC. spec/Program.tla states that writing an output REPLACES what the path held (FreshWhenWritten, checked by TLC from every configuration incl. existing output files) and the real binary is run from those configurations (Trace_Prog17).",
    design="5/C17", technique="TLA+ token-stream model (pushdown acceptor, report table) + TLC enumeration of strings + trace validation of lexed outputs"),
- "C18": dict(text="TextFormat.tla specifies Print / Parse of every kind of component line; TLC checks Parse(Print(c)) = c for every kind, id and tag (MC_C18). On the real library a RoundTrip event records a set written with Display, its tokenised lines and the re-read set: TLC judges the printed lines against TextFormat!PrintLine, metadata / components / demands / factors of the re-read sets at the printed precision, and the Session history Evaluate ; SaveReload ; Evaluate - also through the real program (--oc --of, second run on the saved files).",
+ "C18": dict(text="TextFormat.tla specifies Print / Parse of every kind of component line; TLC checks Parse(Print(c)) = c for every kind, id and tag (MC_C18). On the real library a RoundTrip event records a set written with Display, its tokenised lines and the re-read set: TLC judges the printed lines against TextFormat!PrintLine, metadata / components / demands / factors of the re-read sets at the printed precision, and the Session history Evaluate ; SaveReload ; Evaluate - also through the real program (--oc --of, second run on the saved files, third run on the saved components alone with the recorded location / area / k_exp / user factors). The metadata block is a state machine of its own (spec/MetaStore.tla: LoadText, SetMeta, SaveReload with the promises SetPost / LoadPost / ReloadPost as TLC invariants; Apalache proves SetPost for all strings in the thorough tier); every behaviour TLC enumerates is executed on a real Components and a real Factors value and Trace_Meta compares the store and the get_meta / has_meta answers after every operation.",
    design="5/C18", technique="TLA+ Print/Parse spec + TLC round-trip invariant + trace validation of save/reload histories (library and CLI)"),
- "C19": dict(text="spec/Cli.tla is a finite model of option / metadata / default resolution and exit codes; TLC enumerates its configuration space (complete product in the thorough tier) and every configuration is executed by the real binary; TLC judges exit code, origin lines, effective values in --json, write-back in --oc and the per-m2 ratio against Cli!Allowed (set-valued where the statement is silent). The clause 'no result when refused' is also checked on the program state machine of spec/Program.tla (NoResultWhenRefused at model level, Trace_Prog19 on real runs of every configuration).",
+ "C19": dict(text="spec/Cli.tla is a finite model of option / metadata / default resolution and exit codes; TLC enumerates its configuration space (complete product in the thorough tier) and every configuration is executed by the real binary; TLC judges exit code, origin lines, effective values in --json, write-back in --oc (area, k_exp, RED1, RED2 and the location) and the per-m2 ratio against Cli!Allowed (set-valued where the statement is silent); accepted values include three-decimal ones (echo and write-back judged at the printed precision, the value used exactly); the whole metadata block of the emitted components is compared with MetaDefs!Recorded (DRIFT). The clause 'no result when refused' is also checked on the program state machine of spec/Program.tla (NoResultWhenRefused at model level, Trace_Prog19 on real runs of every configuration).",
    design="5/C19", technique="finite TLA+ model of the CLI + TLC enumeration of configurations + trace validation of real executions"),
 }
 
@@ -87,7 +87,7 @@ def main():
                       "kind_free_text": "explicit TLA+ specification (/verif/spec) checked by TLC; conformance harness (/verif/harness) replays TLC-generated cases on the real code and TLC validates the recorded traces (/verif/trace)"}],
          "checks": checks,
          "not_applicable": na,
-         "notes": "Model-based verification with an explicit TLA+ specification; see DESIGN.md (section 0 = as built). Known findings: known_findings.json (one open, F1 for C14; the fixed list names the 17 defects of the tree repaired by fix: commits). Beyond the 19 properties the specification covers the command line program as a state machine (spec/Program.tla, bound by Trace_Prog16/19), the grammars of both input files (spec/Grammar.tla, conformance reported as drift) and the demand lines (spec/Components.tla). ./check --selftest demonstrates the binding (13 corruptions of recorded traces, all noticed). seeded/ holds 76+ changes written by independent sub-agents with the checks that catch each."}
+         "notes": "Model-based verification with an explicit TLA+ specification; see DESIGN.md (section 0 = as built). Known findings: known_findings.json (one open, F1 for C14; the fixed list names the 18 defects of the tree repaired by fix: commits). Beyond the 19 properties the specification covers the command line program as a state machine (spec/Program.tla, bound by Trace_Prog16/17/19), the metadata store (spec/MetaStore.tla, Trace_Meta), the spellings of factor triples (spec/Triple.tla, Trace_Triple), the grammars of both input files (spec/Grammar.tla, conformance reported as drift) and the demand lines (spec/Components.tla). ./check --selftest demonstrates the binding (16 corruptions of recorded traces, all noticed). seeded/ holds 110+ changes written by independent sub-agents with the checks that catch each."}
     json.dump(m, open(os.path.join(ROOT, "MANIFEST.json"), "w"), indent=1)
     print("MANIFEST.json:", len(checks), "checks,", len(na), "not claimed")
 
